@@ -254,6 +254,7 @@ template<typename DT> LAFEM::SparseMatrixCSR<DT, Index> blk(const std::string& n
 }
 template<typename DT> void put(Dense<DT>& G, Index r0, Index c0, const Dense<DT>& B) { for(size_t i = 0; i < B.size(); ++i) for(size_t j = 0; j < B[i].size(); ++j) G[r0 + i][c0 + j] = B[i][j]; }
 
+#ifndef C01_META_CASES_EXTERN
 // FLAT: 0 = typed vectors only, 1 = also the flat DenseVector overloads, 2 = flat overloads for the non-transposed product only
 template<typename DT, int FLAT, bool T_AXPY = true, typename MT>
 void meta_cases(const std::string& name, const MT& A, const Dense<DT>& D)
@@ -300,6 +301,8 @@ void meta_cases(const std::string& name, const MT& A, const Dense<DT>& D)
   }
 }
 
+#endif // C01_META_CASES_EXTERN
+
 template<typename DT>
 void run_meta()
 {
@@ -345,6 +348,7 @@ void run_meta()
   }
 }
 
+#ifndef C01_META_CASES_EXTERN
 template<typename DT>
 void run_all(int argc, char** argv)
 {
@@ -367,3 +371,4 @@ int main(int argc, char** argv)
 #endif
   });
 }
+#endif // C01_META_CASES_EXTERN
